@@ -1,9 +1,9 @@
 (* C12 -- stereo signs are permutation-consistent.  Statements only; proofs in Proofs.StereoProofs.
    The two translation tables are regenerated from chython/algorithms/stereo.py on every run. *)
 From Coq Require Import ZArith List Bool.
-From Model Require Import PyBase Graph Stereo StereoRegistry.
+From Model Require Import PyBase Graph Stereo StereoRegistry StereoSmiles StereoFix.
 From Gen Require Import StereoTables.
-From Proofs Require Import StereoProofs StereoRegistryProofs StereoRegistryDisjoint.
+From Proofs Require Import StereoProofs StereoRegistryProofs StereoRegistryDisjoint StereoSmilesProofs StereoFixProofs.
 Import ListNotations.
 Open Scope Z_scope.
 
@@ -298,3 +298,128 @@ Theorem C12_registries_example :
              r_cumulenes r = [[2; 3]; [3; 4]; [5; 4]; [6; 4]] /\ r_sg_cum r = [] /\ r_sg_ct r = []).
 Proof. exact registries_example. Qed.
 Print Assumptions C12_registries_example.
+
+(* ====================================================================================================================== *)
+(* EXTENSION 2: SMILES stereo marks (Model.StereoSmiles): writer _format_atom / __ct_map rule, reader postprocess_molecule *)
+
+(* the translations flip the sign by an amount that does not depend on the sign: involution for EVERY order and neighbour list *)
+Theorem C12_translate_involutive_any : forall (isH : Z -> bool),
+  (forall order adj s r, translate_th isH order adj s = Ok r -> translate_th isH order adj r = Ok s) /\
+  (forall e nn nm s r, translate_env isH e nn nm s = Ok r -> translate_env isH e nn nm r = Ok s).
+Proof. exact (fun isH => conj (translate_th_involutive_any isH) (translate_env_involutive_any isH)). Qed.
+Print Assumptions C12_translate_involutive_any.
+
+(* writer and reader agree on which atom is "first" (start atom of a component = atom without preceding neighbour) *)
+Theorem C12_first_atom_inversion_coherent : forall (pos : Z -> Z) n adj (is_start : bool),
+  (is_start = true -> forall m, In m adj -> pos n < pos m) ->
+  (is_start = false -> exists parent rest, adj = parent :: rest /\ pos parent < pos n) ->
+  nopred pos n adj = is_start.
+Proof. exact first_atom_inversion_coherent. Qed.
+Print Assumptions C12_first_atom_inversion_coherent.
+
+(* tetrahedral round trip: for every written neighbour order (preceding atom, ring-closure digits, branches, explicit H anywhere,
+   implicit H; first atom or not) the mark the writer emits is read back as the stored sign *)
+Theorem C12_smiles_stereo_roundtrip_th : forall (isH : Z -> bool) order (pos : Z -> Z) n adj s hasH (is_start : bool) w,
+  (is_start = true -> forall m, In m adj -> pos n < pos m) ->
+  (is_start = false -> exists parent rest, adj = parent :: rest /\ pos parent < pos n) ->
+  write_th isH order adj s hasH is_start = Ok w -> read_th isH order adj w hasH (nopred pos n adj) = Ok s.
+Proof. exact smiles_stereo_roundtrip_th. Qed.
+Print Assumptions C12_smiles_stereo_roundtrip_th.
+
+(* and a reader that disagrees on "first" reads the enantiomer (the defect fixed by 2fd6cc9) *)
+Theorem C12_smiles_th_first_mismatch : forall (isH : Z -> bool) order adj s w,
+  write_th isH order adj s true true = Ok w -> read_th isH order adj w true false = Ok (negb s).
+Proof. exact smiles_th_first_mismatch. Qed.
+Print Assumptions C12_smiles_th_first_mismatch.
+
+(* the written mark is the stored sign xor the parity of the written arrangement xor the first-atom inversion *)
+Theorem C12_write_th_parity : forall (isH : Z -> bool) s hasH first,
+  (forall a b c d p, NoDup [a; b; c; d] -> In p perms4 ->
+     write_th isH [a; b; c; d] (sel [a; b; c; d] p) s hasH first = Ok (xorb (xorb s (odd_perm p)) (hasH && first))) /\
+  (forall a b c q, NoDup [a; b; c] -> In q perms3 ->
+     write_th isH [a; b; c] (sel [a; b; c] q) s hasH first = Ok (xorb (xorb s (odd_perm (q ++ [3]))) (hasH && first))).
+Proof.
+  exact (fun isH s hasH first => conj (fun a b c d p => write_th_parity4 isH a b c d p s hasH first)
+                                      (fun a b c q => write_th_parity3 isH a b c q s hasH first)).
+Qed.
+Print Assumptions C12_write_th_parity.
+
+(* allene round trip; the reference of a terminal is its first written substituent, explicit hydrogen included (e4fb73d) *)
+Theorem C12_smiles_stereo_roundtrip_allene : forall (isH : Z -> bool) e adj1 adj2 s np w,
+  write_al isH e adj1 adj2 s = Ok w -> read_al isH e adj1 adj2 w false np = Ok s.
+Proof. exact smiles_al_roundtrip. Qed.
+Print Assumptions C12_smiles_stereo_roundtrip_allene.
+
+Theorem C12_first_ref_spec : forall (isH : Z -> bool) e l x, first_ref isH e l = Some x <->
+  exists l1 l2, l = l1 ++ x :: l2 /\ (in_env x e || isH x) = true /\ forall y, In y l1 -> (in_env y e || isH y) = false.
+Proof. exact first_ref_spec. Qed.
+Print Assumptions C12_first_ref_spec.
+
+(* cis/trans round trip: the two marks written for a double bond are read back as the stored sign from either end, whatever the
+   inherited mark of the first end; popitem may return either marked substituent of an end *)
+Theorem C12_smiles_stereo_roundtrip_ct : forall (isH : Z -> bool) e kf v on base s mo mk,
+  write_ct isH e kf v on base s = Ok (mo, mk) ->
+  read_ct isH e (negb kf) on v mo mk = Ok s /\ read_ct isH e kf v on mk mo = Ok s.
+Proof. exact smiles_ct_roundtrip. Qed.
+Print Assumptions C12_smiles_stereo_roundtrip_ct.
+
+Theorem C12_smiles_ct_popitem_independent : forall (isH : Z -> bool) n0 n1 n2 n3 b m mb r,
+  NoDup [n0; n1; n2; n3] -> In b [1; 3] ->
+  translate_env isH (n0, n1, Some n2, Some n3) (pick (n0, n1, n2, n3) 0) (pick (n0, n1, n2, n3) b) (Bool.eqb m mb) = Ok r ->
+  translate_env isH (n0, n1, Some n2, Some n3) (pick (n0, n1, n2, n3) 2) (pick (n0, n1, n2, n3) b) (Bool.eqb (negb m) mb) = Ok r.
+Proof. exact smiles_ct_popitem_independent. Qed.
+Print Assumptions C12_smiles_ct_popitem_independent.
+
+Theorem C12_smiles_marks_example :
+  write_th (fun _ => false) [2; 3; 4] [2; 3; 4] true true true = Ok false /\
+  read_th (fun _ => false) [2; 3; 4] [2; 3; 4] false true true = Ok true /\
+  write_th (fun _ => false) [2; 3; 4] [3; 2; 4] true true false = Ok false /\
+  write_ct (fun _ => false) (1, 4, None, None) false 4 1 false false = Ok (false, true) /\
+  read_ct (fun _ => false) (1, 4, None, None) true 1 4 false true = Ok false /\
+  write_al (fun x => x =? 9) (1, 6, Some 3, None) [1; 3; 4] [4; 9; 6] true = Ok false /\
+  read_al (fun x => x =? 9) (1, 6, Some 3, None) [1; 3; 4] [4; 9; 6] false false true = Ok true.
+Proof. exact smiles_marks_example. Qed.
+Print Assumptions C12_smiles_marks_example.
+
+(* ====================================================================================================================== *)
+(* EXTENSION 3: the retry loop of fix_stereo (Model.StereoFix), for EVERY chirality function `chiral restored centre`
+   (__chiral_centers / _chiral_morgan are NOT modelled: they are this parameter) *)
+
+(* the result consists of saved labels only, and each was chiral at the moment it was restored (given the labels before it) *)
+Theorem C12_fix_loop_justified : forall (chiral : list label -> centre -> bool) fuel restored pending,
+  exists kept, fix_loop chiral fuel restored pending = restored ++ kept /\ incl kept pending /\
+    forall cs, In cs kept -> exists pre tail, kept = pre ++ tail /\ In cs tail /\ chiral (restored ++ pre) (fst cs) = true.
+Proof. exact fix_loop_justified. Qed.
+Print Assumptions C12_fix_loop_justified.
+
+(* the loop runs to its fixpoint: a saved label that was not restored is not chiral given the final labels *)
+Theorem C12_fix_loop_stable : forall (chiral : list label -> centre -> bool) fuel restored pending,
+  (List.length pending <= fuel)%nat -> forall cs, In cs pending ->
+  In cs (fix_loop chiral fuel restored pending) \/ chiral (fix_loop chiral fuel restored pending) (fst cs) = false.
+Proof. exact fix_loop_stable. Qed.
+Print Assumptions C12_fix_loop_stable.
+
+(* THE SPECIFICATION: if chirality is monotone in the labels present, a saved label survives fix_stereo IFF its centre is chiral
+   after the labels of the other surviving centres are restored *)
+Theorem C12_fix_stereo_spec : forall (chiral : list label -> centre -> bool),
+  (forall R R' c, incl R R' -> (forall s, ~ In (c, s) R') -> chiral R c = true -> chiral R' c = true) ->
+  forall saved, NoDup (map fst saved) ->
+  let result := fix_loop chiral (S (List.length saved)) [] saved in
+  forall cs, In cs saved -> (In cs result <-> chiral (others cs result) (fst cs) = true).
+Proof. exact fix_stereo_spec. Qed.
+Print Assumptions C12_fix_stereo_spec.
+
+(* non-vacuity: a pseudo-asymmetric centre 3 between chiral centres 1 and 2 (restored in the second round iff 1 and 2 differ) *)
+Theorem C12_fix_loop_example :
+  fix_loop ex_chiral 5 [] [(CT 1, true); (CT 2, false); (CT 3, true); (CT 4, true)] = [(CT 1, true); (CT 2, false); (CT 3, true)] /\
+  fix_loop ex_chiral 5 [] [(CT 1, true); (CT 2, true); (CT 3, true); (CT 4, true)] = [(CT 1, true); (CT 2, true)] /\
+  fix_loop ex_chiral 5 [] [(CT 3, true); (CT 4, false)] = [].
+Proof. exact fix_loop_example. Qed.
+Print Assumptions C12_fix_loop_example.
+
+Theorem C12_fix_stereo_spec_example :
+  (forall R R' c, incl R R' -> (forall s, ~ In (c, s) R') -> ex_mono R c = true -> ex_mono R' c = true) /\
+  NoDup (map fst [(CT 2, false); (CT 1, true); (CT 3, true)]) /\
+  fix_loop ex_mono 4 [] [(CT 2, false); (CT 1, true); (CT 3, true)] = [(CT 1, true); (CT 2, false)].
+Proof. exact fix_stereo_spec_example. Qed.
+Print Assumptions C12_fix_stereo_spec_example.
